@@ -14,6 +14,7 @@ import (
 	"time"
 
 	"github.com/google/martian/v3"
+	"github.com/google/martian/v3/h2"
 	"github.com/google/martian/v3/mitm"
 )
 
@@ -125,4 +126,26 @@ func UpstreamTLS(p *martian.Proxy) {
 		ExpectContinueTimeout: time.Second,
 		DisableCompression:    true,
 	})
+}
+
+var (
+	mitmH2Once sync.Once
+	mitmH2Conf *mitm.Config
+	mitmH2Err  error
+)
+
+// MITMH2 is like MITM, but the returned (second process-wide) config has an
+// h2.Config set whose host filter admits no host: HTTP/2 support is configured,
+// every session is nevertheless to be served as HTTP/1.1.
+func MITMH2() (*mitm.Config, *x509.CertPool, error) {
+	if _, _, err := MITM(); err != nil {
+		return nil, nil, err
+	}
+	mitmH2Once.Do(func() {
+		mitmH2Conf, mitmH2Err = mitm.NewConfig(mitmCA, mitmKey)
+		if mitmH2Err == nil {
+			mitmH2Conf.SetH2Config(&h2.Config{AllowedHostsFilter: func(string) bool { return false }, RootCAs: OriginPool()})
+		}
+	})
+	return mitmH2Conf, mitmPool, mitmH2Err
 }
